@@ -19,7 +19,11 @@ def load(pid):
 
 def main():
     t0 = time.time()
-    pids = sorted(f[:-3] for f in os.listdir(os.path.join(root, "checks")) if f.endswith(".py") and f[0] == "C")
+    pids = sorted(f[:-3] for f in os.listdir(os.path.join(root, "checks")) if f.endswith(".py") and f[0] == "C" and f[1:3].isdigit())
+    cp = os.path.join(root, "claimed.txt")
+    if os.path.exists(cp):
+        claimed = set(open(cp).read().split())
+        pids = [p for p in pids if p in claimed]
     mods = {p: load(p) for p in pids}
     # 1. harnesses (parallel, they dominate the wall time)
     jobs = []
@@ -37,7 +41,8 @@ def main():
             m.regenerate()
     # 3. Coq: full build
     vlib.coq_project()
-    rc, out = vlib.coq_make([], timeout=7200)
+    targets = ["Properties_%s.vo" % p for p in pids] + ["Extract_%s.vo" % p for p in pids if getattr(mods[p], "MODEL", False)]
+    rc, out = vlib.coq_make(targets, timeout=7200)
     if rc != 0:
         print(out[-4000:])
         print("SETUP: Coq build failed")
